@@ -133,7 +133,8 @@ def strat_free(tier):
         'shape': st.one_of(st.tuples(ax, ax).map(list), ax.map(lambda k: [k, k])),
         'wvl': st.sampled_from([0.5, 0.6328, 1.55, 10.6]), 'dx': st.sampled_from([0.01, 0.05, 0.2, 1.0]),
         'z1': z, 'z2': z, 'Q': st.sampled_from([1, 1, 2]), 'via': st.sampled_from(['function', 'tf', 'wavefront']),
-        'kind': U.field_kinds, 'prec': st.sampled_from([64, 64, 64, 32]), 'layout': U.layouts, 'seed': U.seeds})
+        'kind': U.field_kinds, 'prec': st.sampled_from([64, 64, 64, 32]), 'layout': U.layouts, 'seed': U.seeds,
+        'scalar_type': st.sampled_from(['float', 'float', 'np.float64', '0d-array'])})
 
 
 def check_free(case, ctx):
@@ -142,6 +143,14 @@ def check_free(case, ctx):
     shape, wvl, dx, z1, z2, Q, via, prec = (case[k] for k in ('shape', 'wvl', 'dx', 'z1', 'z2', 'Q', 'via', 'prec'))
     f = U.relayout(U.field(case['seed'], shape, case['kind']).astype(complex), case.get('layout', 'C'))
     f_before = f.copy()
+    # the scalar arguments may be Python floats, numpy scalars or 0-d arrays; the callee must not change the caller's objects
+    styp = case.get('scalar_type', 'float')
+    wvl0, dx0 = wvl, dx
+    if styp == 'np.float64':
+        wvl, dx = np.float64(wvl), np.float64(dx)
+    elif styp == '0d-array':
+        wvl, dx = np.array(wvl, dtype=float), np.array(dx, dtype=float)
+    ctx.label('scalars:' + styp)
     ctx.nt(shape[0] != shape[1] or shape[0] % 2 == 1 or shape[1] % 2 == 1 or case['kind'] != 'real' or Q > 1 or z1 < 0 or z2 != 0)
     ctx.label('via:' + via, 'prec%d' % prec, 'Q=%d' % Q, 'z1<0' if z1 < 0 else ('z1=0' if z1 == 0 else 'z1>0'),
               'square' if shape[0] == shape[1] else 'nonsquare')
@@ -160,7 +169,7 @@ def check_free(case, ctx):
                 return ctx.call(P.angular_spectrum, a2, wvl, dx, z, 1, tf)
             w = P.Wavefront(a, wvl, dx)
             wo = ctx.call(w.free_space, z, q)
-            ctx.require(wo.dx == dx and wo.wavelength == wvl, 'free_space:metadata', 'dx / wavelength changed')
+            ctx.require(float(wo.dx) == dx0 and float(wo.wavelength) == wvl0, 'free_space:metadata', 'dx / wavelength changed')
             return wo.data
         H = ctx.call(P.angular_spectrum_transfer_function, tuple(padded), wvl, dx, z1)
         U.check_shape(H, padded, 'transfer_function')
@@ -180,6 +189,8 @@ def check_free(case, ctx):
         gs = prop(f, z1 + z2, Q)
         U.check_close(g12, gs, tol, 'free_space:additive', 'P(z2)P(z1) != P(z1+z2) for z1=%g z2=%g' % (z1, z2), atol=tol * math.sqrt(E))
         U.check_equal(f, f_before, 'free_space:input-modified', 'propagation modified its input array')
+        ctx.require(float(wvl) == wvl0 and float(dx) == dx0, 'free_space:argument-modified',
+                    'the wavelength / spacing objects of the caller were changed in place: wvl %r -> %r, dx %r -> %r' % (wvl0, float(wvl), dx0, float(dx)))
         # a transfer function handed out earlier stays what it was (no aliasing with anything later calls reuse)
         H2 = ctx.call(P.angular_spectrum_transfer_function, tuple(padded), wvl, dx, z1)
         Hc = np.array(H2, copy=True)
